@@ -3,6 +3,8 @@
 # it breaks, undo; writes seeded/MATRIX.md.  (Uses /repo itself: do not run other checks meanwhile.)
 cd /verif
 out=seeded/MATRIX.md
+# evidence and replays written while a patch is applied describe the patched tree: keep the real ones aside
+save=$(mktemp -d); cp -a evidence $save/evidence; ls replays > $save/replays.list
 {
 echo "# Seeded changes vs checks"
 echo
@@ -24,3 +26,7 @@ for d in seeded/*/; do
   echo "| $s | $p | $what | $r ${sup:+($sup)} |" >> $out
   echo "$s -> $p: $r"
 done
+# restore the evidence of the unchanged tree, drop the replays of the patched runs
+rm -rf evidence; cp -a $save/evidence evidence
+for f in replays/*; do grep -qx "$(basename $f)" $save/replays.list || rm -f "$f"; done
+rm -rf $save
